@@ -14,6 +14,7 @@ import (
 	"fmt"
 	"io"
 	"math"
+	"math/rand"
 	"os"
 	"strconv"
 	"strings"
@@ -177,6 +178,7 @@ type Case struct {
 	WSeed    int64  `json:"wseed"` // every serialisation choice (layout, key order, timestamp syntax) derives from it
 	CtxTTL   uint16 `json:"ctx_ttl"`
 	KeyOrder string `json:"key_order,omitempty"` // Loki JSON: "entries-first" / "labels-first": where the entry arrays of a stream object stand relative to its label members
+	Reads    int    `json:"reads,omitempty"`     // > 0: the parser reads the body through a reader that returns 1..Reads bytes per call (sizes from a PRNG seeded by WSeed)
 	Split    bool   `json:"split,omitempty"`     // Loki JSON: labels / entries of a stream may be spread over two members of the stream object
 	Hist     int    `json:"hist,omitempty"`      // > 0: this body is step Step of history Hist: bodies decoded one after another in this process
 	Step     int    `json:"step,omitempty"`
@@ -225,6 +227,21 @@ func (c *setCache) CheckAndSet(k uint64) bool {
 }
 func (c *setCache) Has(k uint64) bool                    { return c.seen[k] }
 func (c *setCache) DB(string) numbercache.ICache[uint64] { return c }
+
+// smallReader hands the body over in short reads (1..max bytes per call), as a network connection does
+type smallReader struct {
+	r   io.Reader
+	rng *rand.Rand
+	max int
+}
+
+func (s *smallReader) Read(p []byte) (int, error) {
+	n := 1 + s.rng.Intn(s.max)
+	if n > len(p) {
+		n = len(p)
+	}
+	return s.r.Read(p[:n])
+}
 
 func parserOf(proto string) unmarshal.ParsingFunction {
 	switch proto {
@@ -433,6 +450,13 @@ func run(c *Case) {
 				c.Obs.T1 = c.Obs.T0
 				return
 			}
+		}
+		if c.Reads > 0 && c.Cut == nil {
+			max := c.Reads
+			if len(wire) > 100000 && max < 1000 {
+				max *= 100 // long bodies: pieces of up to 100 .. 30000 bytes
+			}
+			body = &smallReader{r: body, rng: rand.New(rand.NewSource(c.WSeed ^ 0x5eed)), max: max}
 		}
 		c.Obs.T0 = time.Now().UnixNano()
 		ch = parserOf(c.Proto)(ctx, body, cache)
@@ -653,6 +677,7 @@ func main() {
 			if c.Proto == "esbulk" {
 				genES(r, &c)
 			}
+			setReads(&c)
 			run(&c)
 			out.Put(c)
 		}
